@@ -202,6 +202,21 @@ pub async fn run(args: &Args, rep: &mut Reporter) {
                 hash.str(&out.op);
                 rep.count("history_steps", 1);
             }
+            // one folder with many rows: more than any bounded channel / page / batch size the
+            // report machinery may use (8, 16, 32 ...)
+            if let Some(o) = s.opened.as_mut() {
+                if let Some(f) = o.account.default_folder().await.map(|f| *f.id()) {
+                    let n = args.by_tier(40usize, 80usize);
+                    let mut g = vmodel::secgen::Gen::new(&mut rng);
+                    g.allow_large = false;
+                    for k in 0..n {
+                        let (m, sct) = g.secret_of_kind(if k % 3 == 0 { 0 } else { 1 }, 0);
+                        if o.account.create_secret(m, sct, sos_client_storage::AccessOptions { folder: Some(f), ..Default::default() }).await.is_ok() {
+                            rep.count("big_folder_rows", 1);
+                        }
+                    }
+                }
+            }
             let account_id = pristine.account_id;
             let summaries = s.account().list_folders().await.unwrap_or_default();
             let files = s.account().canonical_files().await.unwrap_or_default();
@@ -356,8 +371,28 @@ pub async fn run(args: &Args, rep: &mut Reporter) {
                                     })
                                     .await
                                     .unwrap_or_default();
-                                let take = if dense { rows.len() } else { rows.len().min(4) };
-                                for (rowid, blob) in rows.into_iter().take(take) {
+                                // quick tier: rows spread over the whole table, and the rows right after
+                                // the usual buffer sizes
+                                let n = rows.len();
+                                let mut pick: std::collections::BTreeSet<usize> = Default::default();
+                                if dense {
+                                    pick.extend(0..n);
+                                } else if n > 0 {
+                                    for i in [0, 1, n / 4, n / 2, 3 * n / 4, n.saturating_sub(2), n - 1, 8, 9, 16, 17, 32, 33] {
+                                        if i < n {
+                                            pick.insert(i);
+                                        }
+                                    }
+                                    pick.insert(rng.usize(n));
+                                }
+                                rep.max(&format!("max:rows_in_a_table:{class}"), n as u64);
+                                for (ri, (rowid, blob)) in rows.into_iter().enumerate() {
+                                    if !pick.contains(&ri) {
+                                        continue;
+                                    }
+                                    if ri >= 8 {
+                                        rep.count("db_rows_mutated_beyond_8th", 1);
+                                    }
                                     if blob.is_empty() {
                                         continue;
                                     }
